@@ -93,6 +93,9 @@ def _arrays(tier, seed):
     for pc in range(12):  # a single note of every pitch class (the smallest input: its only context is itself), and two-note inputs
         out.append(("single_note_pitch_class_%d" % pc, [(24 + 12 * (pc % 5) + pc, 0, 1)]))
     out.append(("two_notes_a_tritone_apart", [(66, 0, 1), (60, 1, 1)]))
+    # wide leaps at short distances on a fine time grid (a bass note a sixteenth after a high note; 16 semitones a thirty-second apart; ...)
+    out.append(("wide_leaps_a_sixteenth_apart", [(68, 0.0, 0.25), (36, 0.25, 0.25), (72, 0.5, 0.125), (56, 0.625, 0.125), (80, 1.0, 0.0625), (72, 1.0625, 0.0625), (100, 1.5, 0.5), (36, 2.0, 0.5),
+                                                  (68, 2.5, 0.25), (36, 2.75, 0.25), (60, 3.0, 1.0)]))
     # pieces whose first note is the one pitch class the initial-spelling table treats specially (E flat / D sharp), in contexts pulling either way
     out.append(("begins_on_e_flat_in_a_context_of_d_and_g_sharp", [(63, 0, 1), (62, 1, 1), (62, 2, 1), (62, 3, 1), (62, 4, 1), (68, 5, 1), (62, 6, 1)]))
     out.append(("begins_on_d_sharp_in_a_context_of_e_and_b", [(63, 0, 1), (64, 1, 1), (71, 2, 1), (64, 3, 1), (66, 4, 1), (68, 5, 1), (64, 6, 2)]))
